@@ -1,8 +1,575 @@
-/- PyodaModel.Compare — placeholder until the area is modelled. -/
-import PyodaModel.Prelude
+/-
+  PyodaModel.Compare — equality, hashing and ordering of the public value types.
+
+  Transcribed from the `__eq__/__ne__/__lt__/__le__/__gt__/__ge__/__hash__/compare_to/min/max` members of
+  pyoda_time/_duration.py, _instant.py, _offset.py, _local_date.py, _local_time.py, _local_date_time.py,
+  _year_month.py, _annual_date.py, _offset_date.py, _offset_time.py, _offset_date_time.py, _zoned_date_time.py,
+  _interval.py, _date_interval.py, _period.py, time_zones/_zone_interval.py, time_zones/_fixed_date_time_zone.py,
+  _year_month_day.py, _year_month_day_calendar.py, utility/_hash_code_helper.py,
+  calendars/_hebrew_year_month_day_calculator.py (`compare`), calendars/_hebrew_month_converter.py.
+
+  Conventions: `x << k | y` (0 ≤ y < 2^k) ↦ `x * 2^k + y`; `v >> k` ↦ `v / 2^k` (floor for Int and a positive
+  literal); `v & (2^k - 1)` ↦ `v % 2^k`.  A comparison that the code refuses with ValueError (different calendars)
+  is `.error .valueError`.  Strings (zone ids, names) are represented by integer codes of a table of distinct
+  strings; their hashes and the identity hash of a CalendarSystem are parameters.
+-/
+import PyodaModel.Elapsed
 
 namespace Pyoda.Compare
+open Pyoda
 
-def handle (_toks : List String) : Option String := none
+/-! ## Python built-ins used by the code -/
+
+/-- 2^61 - 1, the modulus of CPython's numeric hash -/
+def P61 : Int := 2305843009213693951
+
+/-- `hash(n)` for a Python `int` -/
+def pyIntHash (n : Int) : Int :=
+  let h := if 0 ≤ n then n % P61 else -((-n) % P61)
+  if h = -1 then -2 else h
+
+/-- `hash(obj)` given the integer returned by `obj.__hash__()`: used as is when it fits a `Py_ssize_t`
+    (reduced like an `int` otherwise); `-1` is reserved and becomes `-2`. -/
+def objHash (v : Int) : Int :=
+  if -9223372036854775808 ≤ v ∧ v ≤ 9223372036854775807 then (if v = -1 then -2 else v) else pyIntHash v
+
+/-- `_hash_code_helper(*values)` on the hashes of the values: `ret = 17; ret += ret * 37 + hash(v)` -/
+def hashHelper (hs : List Int) : Int := hs.foldl (fun ret h => ret + ret * 37 + h) 17
+
+/-- `a ^ b` on Python ints (two's complement, unbounded) -/
+def xorInt : Int → Int → Int
+  | .ofNat m, .ofNat n => .ofNat (m ^^^ n)
+  | .ofNat m, .negSucc n => .negSucc (m ^^^ n)
+  | .negSucc m, .ofNat n => .negSucc (m ^^^ n)
+  | .negSucc m, .negSucc n => .ofNat (m ^^^ n)
+
+/-- built-in `max(x, y)`: the second argument only if it is strictly greater (`y > x`, evaluated as `y.__gt__(x)`) -/
+def pyMax {α} (gt : α → α → R Bool) (x y : α) : R α :=
+  match gt y x with
+  | .ok true => .ok y
+  | .ok false => .ok x
+  | .error e => .error e
+
+/-- built-in `min(x, y)`: the second argument only if it is strictly smaller (`y < x`) -/
+def pyMin {α} (lt : α → α → R Bool) (x y : α) : R α :=
+  match lt y x with
+  | .ok true => .ok y
+  | .ok false => .ok x
+  | .error e => .error e
+
+/-- `_Preconditions._check_argument(a == b, …)` of the cross-calendar guard -/
+def sameCal {α} (a b : Int) (v : α) : R α := if a = b then .ok v else .error .valueError
+
+/-! ## `_YearMonthDay` / `_YearMonthDayCalendar` packing (15/5/6/6 bits) -/
+
+/-- `(year - 1) << 11 | (month - 1) << 6 | (day - 1)` -/
+def packYMD (y m d : Int) : Int := (y - 1) * 2048 + (m - 1) * 64 + (d - 1)
+/-- `(value >> 11) + 1` -/
+def ymdYear (v : Int) : Int := v / 2048 + 1
+/-- `((value & MONTH_MASK) >> 6) + 1`, MONTH_MASK = 31 << 6 -/
+def ymdMonth (v : Int) : Int := v % 2048 / 64 + 1
+/-- `(value & 63) + 1` -/
+def ymdDay (v : Int) : Int := v % 64 + 1
+/-- `(year-1) << 17 | (month-1) << 12 | (day-1) << 6 | ordinal` = `year_month_day << 6 | ordinal` -/
+def packYMDC (ord y m d : Int) : Int := packYMD y m d * 64 + ord
+/-- `value & 63` -/
+def ymdcOrdinal (v : Int) : Int := v % 64
+/-- `_to_year_month_day`: `value >> 6` -/
+def ymdcToYMD (v : Int) : Int := v / 64
+
+/-- the fields a validated date can have: 5-bit month, 6-bit day, 6-bit calendar ordinal; any year -/
+def FieldsOK (m d : Int) : Prop := 1 ≤ m ∧ m ≤ 32 ∧ 1 ≤ d ∧ d ≤ 64
+def OrdOK (o : Int) : Prop := 0 ≤ o ∧ o < 64
+
+/-! ## calendar-aware comparison -/
+
+def HEBREW_SCRIPTURAL : Int := 5
+
+/-- `_HebrewScripturalCalculator._is_leap_year` -/
+def hebIsLeap (y : Int) : Bool := decide ((y * 7 + 1) % 19 < 7)
+
+/-- `_HebrewMonthConverter._scriptural_to_civil` -/
+def scripturalToCivil (y m : Int) : Int :=
+  if m ≥ 7 then m - 6 else if hebIsLeap y then m + 7 else m + 6
+
+/-- `CalendarSystem._compare(lhs, rhs)`: the raw packed difference, except for the Hebrew calendar with
+    scriptural month numbering, which compares (year, civil month, day). -/
+def calCompare (ord l r : Int) : Int :=
+  if ord = HEBREW_SCRIPTURAL then
+    if ymdYear l - ymdYear r ≠ 0 then ymdYear l - ymdYear r
+    else if scripturalToCivil (ymdYear l) (ymdMonth l) - scripturalToCivil (ymdYear r) (ymdMonth r) ≠ 0 then
+      scripturalToCivil (ymdYear l) (ymdMonth l) - scripturalToCivil (ymdYear r) (ymdMonth r)
+    else ymdDay l - ymdDay r
+  else l - r
+
+/-! ## Duration, Instant, Offset (structures of `PyodaModel.Elapsed`) -/
+
+namespace Dur
+def eq (a b : Duration) : Bool := Duration.beq a b
+def ne (a b : Duration) : Bool := !Duration.beq a b
+def lt (a b : Duration) : R Bool := .ok (Duration.lt a b)
+def le (a b : Duration) : R Bool := .ok (Duration.le a b)
+def gt (a b : Duration) : R Bool := .ok (Duration.gt a b)
+def ge (a b : Duration) : R Bool := .ok (Duration.ge a b)
+def compareTo (a b : Duration) : R Int := .ok (Duration.compareTo a b)
+def max (x y : Duration) : R Duration := pyMax gt x y
+def min (x y : Duration) : R Duration := pyMin lt x y
+/-- `__hash__`: `days ^ hash(nano_of_day)` -/
+def hashRaw (a : Duration) : Int := xorInt a.days (pyIntHash a.nod)
+def hash (a : Duration) : Int := objHash (hashRaw a)
+end Dur
+
+namespace Inst
+def eq (a b : Instant) : Bool := Duration.beq a.dur b.dur
+def ne (a b : Instant) : Bool := !Duration.beq a.dur b.dur
+def lt (a b : Instant) : R Bool := .ok (Duration.lt a.dur b.dur)
+def le (a b : Instant) : R Bool := .ok (Duration.le a.dur b.dur)
+def gt (a b : Instant) : R Bool := .ok (Duration.gt a.dur b.dur)
+def ge (a b : Instant) : R Bool := .ok (Duration.ge a.dur b.dur)
+def compareTo (a b : Instant) : R Int := .ok (Duration.compareTo a.dur b.dur)
+def max (x y : Instant) : R Instant := pyMax gt x y
+def min (x y : Instant) : R Instant := pyMin lt x y
+/-- `__hash__`: `hash(self.__duration)` -/
+def hashRaw (a : Instant) : Int := Dur.hash a.dur
+def hash (a : Instant) : Int := objHash (hashRaw a)
+end Inst
+
+namespace Off
+def eq (a b : Offset) : Bool := decide (a.seconds = b.seconds)
+def ne (a b : Offset) : Bool := !eq a b
+def lt (a b : Offset) : R Bool := .ok (decide (Offset.compareTo a b < 0))
+def le (a b : Offset) : R Bool := .ok (decide (Offset.compareTo a b ≤ 0))
+def gt (a b : Offset) : R Bool := .ok (decide (Offset.compareTo a b > 0))
+def ge (a b : Offset) : R Bool := .ok (decide (Offset.compareTo a b ≥ 0))
+def compareTo (a b : Offset) : R Int := .ok (Offset.compareTo a b)
+/-- `Offset.max(x, y)` is `max(y, x)` -/
+def max (x y : Offset) : R Offset := pyMax gt y x
+def min (x y : Offset) : R Offset := pyMin lt y x
+def hashRaw (a : Offset) : Int := pyIntHash a.seconds
+def hash (a : Offset) : Int := objHash (hashRaw a)
+end Off
+
+/-! ## LocalTime -/
+
+structure LocalTime where
+  nanos : Int
+  deriving DecidableEq, Repr, Inhabited
+
+namespace LocalTime
+def eq (a b : LocalTime) : Bool := decide (a.nanos = b.nanos)
+def ne (a b : LocalTime) : Bool := !eq a b
+def lt (a b : LocalTime) : R Bool := .ok (decide (a.nanos < b.nanos))
+def le (a b : LocalTime) : R Bool := .ok (decide (a.nanos ≤ b.nanos))
+def gt (a b : LocalTime) : R Bool := .ok (decide (a.nanos > b.nanos))
+def ge (a b : LocalTime) : R Bool := .ok (decide (a.nanos ≥ b.nanos))
+def compareTo (a b : LocalTime) : R Int := .ok (a.nanos - b.nanos)
+/-- `LocalTime.max(x, y)` is `max(y, x)` -/
+def max (x y : LocalTime) : R LocalTime := pyMax gt y x
+def min (x y : LocalTime) : R LocalTime := pyMin lt y x
+def hashRaw (a : LocalTime) : Int := pyIntHash a.nanos
+def hash (a : LocalTime) : Int := objHash (hashRaw a)
+end LocalTime
+
+/-! ## LocalDate: one packed `_YearMonthDayCalendar` integer -/
+
+structure LocalDate where
+  ymdc : Int
+  deriving DecidableEq, Repr, Inhabited
+
+namespace LocalDate
+def ofFields (ord y m d : Int) : LocalDate := ⟨packYMDC ord y m d⟩
+def ordinal (a : LocalDate) : Int := ymdcOrdinal a.ymdc
+def ymd (a : LocalDate) : Int := ymdcToYMD a.ymdc
+def eq (a b : LocalDate) : Bool := decide (a.ymdc = b.ymdc)
+def ne (a b : LocalDate) : Bool := !eq a b
+/-- `__trusted_compare_to` -/
+def trustedCompareTo (a b : LocalDate) : Int := calCompare a.ordinal a.ymd b.ymd
+def lt (a b : LocalDate) : R Bool := sameCal a.ordinal b.ordinal (decide (trustedCompareTo a b < 0))
+def le (a b : LocalDate) : R Bool := sameCal a.ordinal b.ordinal (decide (trustedCompareTo a b ≤ 0))
+def gt (a b : LocalDate) : R Bool := sameCal a.ordinal b.ordinal (decide (trustedCompareTo a b > 0))
+def ge (a b : LocalDate) : R Bool := sameCal a.ordinal b.ordinal (decide (trustedCompareTo a b ≥ 0))
+def compareTo (a b : LocalDate) : R Int := sameCal a.ordinal b.ordinal (trustedCompareTo a b)
+/-- `LocalDate.max`: the calendar guard, then `max(x, y)` -/
+def max (x y : LocalDate) : R LocalDate :=
+  if x.ordinal = y.ordinal then pyMax gt x y else .error .valueError
+def min (x y : LocalDate) : R LocalDate :=
+  if x.ordinal = y.ordinal then pyMin lt x y else .error .valueError
+/-- `__hash__`: `hash(self.__year_month_day_calendar)`, whose `__hash__` is the packed value -/
+def hashRaw (a : LocalDate) : Int := objHash a.ymdc
+def hash (a : LocalDate) : Int := objHash (hashRaw a)
+end LocalDate
+
+/-! ## LocalDateTime -/
+
+structure LocalDateTime where
+  date : LocalDate
+  time : LocalTime
+  deriving DecidableEq, Repr, Inhabited
+
+namespace LocalDateTime
+def eq (a b : LocalDateTime) : Bool := LocalDate.eq a.date b.date && LocalTime.eq a.time b.time
+def ne (a b : LocalDateTime) : Bool := !eq a b
+/-- `compare_to`: the date comparison (which carries the calendar guard), then the time -/
+def compareTo (a b : LocalDateTime) : R Int :=
+  match LocalDate.compareTo a.date b.date with
+  | .error e => .error e
+  | .ok c => if c ≠ 0 then .ok c else LocalTime.compareTo a.time b.time
+def withGuard (a b : LocalDateTime) (f : Int → Bool) : R Bool :=
+  if a.date.ordinal = b.date.ordinal then
+    match compareTo a b with
+    | .ok c => .ok (f c)
+    | .error e => .error e
+  else .error .valueError
+def lt (a b : LocalDateTime) : R Bool := withGuard a b (fun c => decide (c < 0))
+def le (a b : LocalDateTime) : R Bool := withGuard a b (fun c => decide (c ≤ 0))
+def gt (a b : LocalDateTime) : R Bool := withGuard a b (fun c => decide (c > 0))
+def ge (a b : LocalDateTime) : R Bool := withGuard a b (fun c => decide (c ≥ 0))
+def max (x y : LocalDateTime) : R LocalDateTime := pyMax gt x y
+def min (x y : LocalDateTime) : R LocalDateTime := pyMin lt x y
+/-- `_hash_code_helper(date, time, calendar)`; `calHash ord` is the identity hash of the calendar singleton -/
+def hashRaw (calHash : Int → Int) (a : LocalDateTime) : Int :=
+  hashHelper [LocalDate.hash a.date, LocalTime.hash a.time, calHash a.date.ordinal]
+def hash (calHash : Int → Int) (a : LocalDateTime) : Int := objHash (hashRaw calHash a)
+end LocalDateTime
+
+/-! ## YearMonth: the packed first day of the month -/
+
+structure YearMonth where
+  som : Int
+  deriving DecidableEq, Repr, Inhabited
+
+namespace YearMonth
+def ofFields (ord y m : Int) : YearMonth := ⟨packYMDC ord y m 1⟩
+def ordinal (a : YearMonth) : Int := ymdcOrdinal a.som
+def ymd (a : YearMonth) : Int := ymdcToYMD a.som
+def eq (a b : YearMonth) : Bool := decide (a.som = b.som)
+def ne (a b : YearMonth) : Bool := !eq a b
+def trustedCompareTo (a b : YearMonth) : Int := calCompare a.ordinal a.ymd b.ymd
+def lt (a b : YearMonth) : R Bool := sameCal a.ordinal b.ordinal (decide (trustedCompareTo a b < 0))
+def le (a b : YearMonth) : R Bool := sameCal a.ordinal b.ordinal (decide (trustedCompareTo a b ≤ 0))
+def gt (a b : YearMonth) : R Bool := sameCal a.ordinal b.ordinal (decide (trustedCompareTo a b > 0))
+def ge (a b : YearMonth) : R Bool := sameCal a.ordinal b.ordinal (decide (trustedCompareTo a b ≥ 0))
+def compareTo (a b : YearMonth) : R Int := sameCal a.ordinal b.ordinal (trustedCompareTo a b)
+def hashRaw (a : YearMonth) : Int := objHash a.som
+def hash (a : YearMonth) : Int := objHash (hashRaw a)
+end YearMonth
+
+/-! ## AnnualDate: a `_YearMonthDay` in year 1 -/
+
+structure AnnualDate where
+  value : Int
+  deriving DecidableEq, Repr, Inhabited
+
+namespace AnnualDate
+def ofFields (m d : Int) : AnnualDate := ⟨packYMD 1 m d⟩
+def eq (a b : AnnualDate) : Bool := decide (a.value = b.value)
+def ne (a b : AnnualDate) : Bool := !eq a b
+def compareTo (a b : AnnualDate) : R Int := .ok (a.value - b.value)
+def lt (a b : AnnualDate) : R Bool := .ok (decide (a.value - b.value < 0))
+def le (a b : AnnualDate) : R Bool := .ok (decide (a.value - b.value ≤ 0))
+def gt (a b : AnnualDate) : R Bool := .ok (decide (a.value - b.value > 0))
+def ge (a b : AnnualDate) : R Bool := .ok (decide (a.value - b.value ≥ 0))
+def hashRaw (a : AnnualDate) : Int := objHash a.value
+def hash (a : AnnualDate) : Int := objHash (hashRaw a)
+end AnnualDate
+
+/-! ## OffsetDate, OffsetTime, OffsetDateTime, ZonedDateTime: equality and hash only -/
+
+structure OffsetDate where
+  date : LocalDate
+  offset : Offset
+  deriving DecidableEq, Repr, Inhabited
+
+namespace OffsetDate
+def eq (a b : OffsetDate) : Bool := LocalDate.eq a.date b.date && Off.eq a.offset b.offset
+def ne (a b : OffsetDate) : Bool := !eq a b
+def hashRaw (a : OffsetDate) : Int := hashHelper [LocalDate.hash a.date, Off.hash a.offset]
+def hash (a : OffsetDate) : Int := objHash (hashRaw a)
+end OffsetDate
+
+/-- `nanosecond_of_day | (offset_seconds << 47)` -/
+structure OffsetTime where
+  packed : Int
+  deriving DecidableEq, Repr, Inhabited
+
+def TWO47 : Int := 140737488355328
+
+namespace OffsetTime
+def ofFields (nanos offSeconds : Int) : OffsetTime := ⟨offSeconds * TWO47 + nanos⟩
+/-- `time_of_day`: `packed & (2^47 - 1)` -/
+def timeOfDay (a : OffsetTime) : LocalTime := ⟨a.packed % TWO47⟩
+/-- `offset`: `packed >> 47` seconds -/
+def offset (a : OffsetTime) : Offset := ⟨a.packed / TWO47⟩
+def eq (a b : OffsetTime) : Bool := LocalTime.eq a.timeOfDay b.timeOfDay && Off.eq a.offset b.offset
+def ne (a b : OffsetTime) : Bool := !eq a b
+def hashRaw (a : OffsetTime) : Int := hashHelper [LocalTime.hash a.timeOfDay, Off.hash a.offset]
+def hash (a : OffsetTime) : Int := objHash (hashRaw a)
+end OffsetTime
+
+structure OffsetDateTime where
+  date : LocalDate
+  ot : OffsetTime
+  deriving DecidableEq, Repr, Inhabited
+
+namespace OffsetDateTime
+def eq (a b : OffsetDateTime) : Bool := LocalDate.eq a.date b.date && OffsetTime.eq a.ot b.ot
+def ne (a b : OffsetDateTime) : Bool := !eq a b
+def hashRaw (a : OffsetDateTime) : Int := hashHelper [LocalDate.hash a.date, OffsetTime.hash a.ot]
+def hash (a : OffsetDateTime) : Int := objHash (hashRaw a)
+end OffsetDateTime
+
+/-- a zone as far as `==` can see it: fixed zones compare (offset, id, name); every other zone is compared
+    by object identity (index of the singleton handed out by the provider) -/
+inductive Zone where
+  | fixed (offset idCode nameCode : Int)
+  | other (idx : Int)
+  deriving DecidableEq, Repr, Inhabited
+
+namespace Zone
+def eq : Zone → Zone → Bool
+  | .fixed o i n, .fixed o' i' n' => decide (o = o') && decide (i = i') && decide (n = n')
+  | .other k, .other k' => decide (k = k')
+  | _, _ => false
+end Zone
+
+structure ZonedDateTime where
+  odt : OffsetDateTime
+  zone : Zone
+  deriving DecidableEq, Repr, Inhabited
+
+namespace ZonedDateTime
+def eq (a b : ZonedDateTime) : Bool := OffsetDateTime.eq a.odt b.odt && Zone.eq a.zone b.zone
+def ne (a b : ZonedDateTime) : Bool := !eq a b
+end ZonedDateTime
+
+/-! ## Interval, DateInterval, Period, ZoneInterval, fixed zones -/
+
+structure Interval where
+  start : Instant
+  stop : Instant
+  deriving DecidableEq, Repr, Inhabited
+
+namespace Interval
+def eq (a b : Interval) : Bool := Inst.eq a.start b.start && Inst.eq a.stop b.stop
+def ne (a b : Interval) : Bool := !eq a b
+def hashRaw (a : Interval) : Int := hashHelper [Inst.hash a.start, Inst.hash a.stop]
+def hash (a : Interval) : Int := objHash (hashRaw a)
+end Interval
+
+structure DateInterval where
+  start : LocalDate
+  stop : LocalDate
+  deriving DecidableEq, Repr, Inhabited
+
+namespace DateInterval
+def eq (a b : DateInterval) : Bool := LocalDate.eq a.start b.start && LocalDate.eq a.stop b.stop
+def ne (a b : DateInterval) : Bool := !eq a b
+def hashRaw (a : DateInterval) : Int := hashHelper [LocalDate.hash a.start, LocalDate.hash a.stop]
+def hash (a : DateInterval) : Int := objHash (hashRaw a)
+end DateInterval
+
+structure Period where
+  years : Int
+  months : Int
+  weeks : Int
+  days : Int
+  hours : Int
+  minutes : Int
+  seconds : Int
+  milliseconds : Int
+  ticks : Int
+  nanoseconds : Int
+  deriving DecidableEq, Repr, Inhabited
+
+namespace Period
+def toList (p : Period) : List Int :=
+  [p.years, p.months, p.weeks, p.days, p.hours, p.minutes, p.seconds, p.milliseconds, p.ticks, p.nanoseconds]
+def eq (a b : Period) : Bool :=
+  decide (a.years = b.years) && decide (a.months = b.months) && decide (a.weeks = b.weeks) && decide (a.days = b.days)
+  && decide (a.hours = b.hours) && decide (a.minutes = b.minutes) && decide (a.seconds = b.seconds)
+  && decide (a.milliseconds = b.milliseconds) && decide (a.ticks = b.ticks) && decide (a.nanoseconds = b.nanoseconds)
+def ne (a b : Period) : Bool := !eq a b
+/-- `hash((years, …, nanoseconds))`: the built-in tuple hash, a parameter -/
+def hash (tupleHash : List Int → Int) (a : Period) : Int := objHash (tupleHash a.toList)
+end Period
+
+structure ZoneInterval where
+  nameCode : Int
+  rawStart : Instant
+  rawEnd : Instant
+  wall : Offset
+  savings : Offset
+  deriving DecidableEq, Repr, Inhabited
+
+namespace ZoneInterval
+def eq (a b : ZoneInterval) : Bool :=
+  decide (a.nameCode = b.nameCode) && Inst.eq a.rawStart b.rawStart && Inst.eq a.rawEnd b.rawEnd
+  && Off.eq a.wall b.wall && Off.eq a.savings b.savings
+def ne (a b : ZoneInterval) : Bool := !eq a b
+def hashRaw (strHash : Int → Int) (a : ZoneInterval) : Int :=
+  hashHelper [strHash a.nameCode, Inst.hash a.rawStart, Inst.hash a.rawEnd, Off.hash a.wall, Off.hash a.savings]
+def hash (strHash : Int → Int) (a : ZoneInterval) : Int := objHash (hashRaw strHash a)
+end ZoneInterval
+
+structure FixedZone where
+  offset : Offset
+  idCode : Int
+  nameCode : Int
+  deriving DecidableEq, Repr, Inhabited
+
+namespace FixedZone
+def eq (a b : FixedZone) : Bool :=
+  Off.eq a.offset b.offset && decide (a.idCode = b.idCode) && decide (a.nameCode = b.nameCode)
+def ne (a b : FixedZone) : Bool := !eq a b
+def hashRaw (strHash : Int → Int) (a : FixedZone) : Int :=
+  hashHelper [Off.hash a.offset, strHash a.idCode, strHash a.nameCode]
+def hash (strHash : Int → Int) (a : FixedZone) : Int := objHash (hashRaw strHash a)
+end FixedZone
+
+/-! ## line protocol: `tri.<type> <3·n ints>` -/
+
+def showB : R Bool → String
+  | .ok true => "1"
+  | .ok false => "0"
+  | .error .valueError => "E"
+  | .error .typeError => "T"
+  | .error e => "!" ++ e.name
+
+def showSign : R Int → String
+  | .ok c => if c < 0 then "-1" else if c > 0 then "1" else "0"
+  | .error .valueError => "E"
+  | .error .typeError => "T"
+  | .error e => "!" ++ e.name
+
+/-- index of a min/max result: `0` if it equals the first argument, else `1` -/
+def showIdx {α} (eq : α → α → Bool) (x : α) : R α → String
+  | .ok r => if eq r x then "0" else "1"
+  | .error .valueError => "E"
+  | .error .typeError => "T"
+  | .error e => "!" ++ e.name
+
+structure TyOps (α : Type) where
+  eq : α → α → Bool
+  ne : α → α → Bool
+  ord : Option ((α → α → R Bool) × (α → α → R Bool) × (α → α → R Bool) × (α → α → R Bool) × (α → α → R Int))
+  minmax : Option ((α → α → R α) × (α → α → R α))
+  hash : Option (α → Int)
+
+def pairReply {α} (o : TyOps α) (x y : α) : String :=
+  let base := [showBool (o.eq x y), showBool (o.ne x y)]
+  let ord := match o.ord with
+    | some (lt, le, gt, ge, cmp) => [showB (lt x y), showB (le x y), showB (gt x y), showB (ge x y), showSign (cmp x y)]
+    | none => []
+  let mm := match o.minmax with
+    | some (mn, mx) => [showIdx o.eq x (mn x y), showIdx o.eq x (mx x y)]
+    | none => []
+  " ".intercalate (base ++ ord ++ mm)
+
+def triReply {α} (o : TyOps α) (a b c : α) : String :=
+  let s := " ; ".intercalate [pairReply o a b, pairReply o b c, pairReply o a c, pairReply o b a]
+  match o.hash with
+  | some h => s ++ " # " ++ " ".intercalate [toString (h a), toString (h b), toString (h c)]
+  | none => s
+
+def durOps : TyOps Duration :=
+  ⟨Dur.eq, Dur.ne, some (Dur.lt, Dur.le, Dur.gt, Dur.ge, Dur.compareTo), some (Dur.min, Dur.max), some Dur.hash⟩
+def instOps : TyOps Instant :=
+  ⟨Inst.eq, Inst.ne, some (Inst.lt, Inst.le, Inst.gt, Inst.ge, Inst.compareTo), some (Inst.min, Inst.max), some Inst.hash⟩
+def offOps : TyOps Offset :=
+  ⟨Off.eq, Off.ne, some (Off.lt, Off.le, Off.gt, Off.ge, Off.compareTo), some (Off.min, Off.max), some Off.hash⟩
+def ltOps : TyOps LocalTime :=
+  ⟨LocalTime.eq, LocalTime.ne, some (LocalTime.lt, LocalTime.le, LocalTime.gt, LocalTime.ge, LocalTime.compareTo),
+   some (LocalTime.min, LocalTime.max), some LocalTime.hash⟩
+def ldOps : TyOps LocalDate :=
+  ⟨LocalDate.eq, LocalDate.ne, some (LocalDate.lt, LocalDate.le, LocalDate.gt, LocalDate.ge, LocalDate.compareTo),
+   some (LocalDate.min, LocalDate.max), some LocalDate.hash⟩
+def ldtOps : TyOps LocalDateTime :=
+  ⟨LocalDateTime.eq, LocalDateTime.ne,
+   some (LocalDateTime.lt, LocalDateTime.le, LocalDateTime.gt, LocalDateTime.ge, LocalDateTime.compareTo),
+   some (LocalDateTime.min, LocalDateTime.max), none⟩
+def ymOps : TyOps YearMonth :=
+  ⟨YearMonth.eq, YearMonth.ne, some (YearMonth.lt, YearMonth.le, YearMonth.gt, YearMonth.ge, YearMonth.compareTo),
+   none, some YearMonth.hash⟩
+def adOps : TyOps AnnualDate :=
+  ⟨AnnualDate.eq, AnnualDate.ne, some (AnnualDate.lt, AnnualDate.le, AnnualDate.gt, AnnualDate.ge, AnnualDate.compareTo),
+   none, some AnnualDate.hash⟩
+def odOps : TyOps OffsetDate := ⟨OffsetDate.eq, OffsetDate.ne, none, none, some OffsetDate.hash⟩
+def otOps : TyOps OffsetTime := ⟨OffsetTime.eq, OffsetTime.ne, none, none, some OffsetTime.hash⟩
+def odtOps : TyOps OffsetDateTime := ⟨OffsetDateTime.eq, OffsetDateTime.ne, none, none, some OffsetDateTime.hash⟩
+def zdtOps : TyOps ZonedDateTime := ⟨ZonedDateTime.eq, ZonedDateTime.ne, none, none, none⟩
+def ivOps : TyOps Interval := ⟨Interval.eq, Interval.ne, none, none, some Interval.hash⟩
+def divOps : TyOps DateInterval := ⟨DateInterval.eq, DateInterval.ne, none, none, some DateInterval.hash⟩
+def perOps : TyOps Period := ⟨Period.eq, Period.ne, none, none, none⟩
+def ziOps : TyOps ZoneInterval := ⟨ZoneInterval.eq, ZoneInterval.ne, none, none, none⟩
+def fzOps : TyOps FixedZone := ⟨FixedZone.eq, FixedZone.ne, none, none, none⟩
+
+/-- an optional instant of the protocol (`has days nod`): absent start = `Instant._before_min_value()`,
+    absent end = `Instant._after_max_value()` -/
+def optInstant (isEnd : Bool) (has d n : Int) : Instant :=
+  if has = 0 then ⟨⟨if isEnd then Duration.MAX_DAYS else Duration.MIN_DAYS, 0⟩⟩ else ⟨⟨d, n⟩⟩
+
+def decDur : List Int → Option Duration | [d, n] => some ⟨d, n⟩ | _ => none
+def decInst : List Int → Option Instant | [d, n] => some ⟨⟨d, n⟩⟩ | _ => none
+def decOff : List Int → Option Offset | [s] => some ⟨s⟩ | _ => none
+def decLt : List Int → Option LocalTime | [n] => some ⟨n⟩ | _ => none
+def decLd : List Int → Option LocalDate | [o, y, m, d] => some (LocalDate.ofFields o y m d) | _ => none
+def decLdt : List Int → Option LocalDateTime
+  | [o, y, m, d, n] => some ⟨LocalDate.ofFields o y m d, ⟨n⟩⟩ | _ => none
+def decYm : List Int → Option YearMonth | [o, y, m] => some (YearMonth.ofFields o y m) | _ => none
+def decAd : List Int → Option AnnualDate | [m, d] => some (AnnualDate.ofFields m d) | _ => none
+def decOd : List Int → Option OffsetDate
+  | [o, y, m, d, s] => some ⟨LocalDate.ofFields o y m d, ⟨s⟩⟩ | _ => none
+def decOt : List Int → Option OffsetTime | [n, s] => some (OffsetTime.ofFields n s) | _ => none
+def decOdt : List Int → Option OffsetDateTime
+  | [o, y, m, d, n, s] => some ⟨LocalDate.ofFields o y m d, OffsetTime.ofFields n s⟩ | _ => none
+def decZone (k a b c : Int) : Zone := if k = 0 then .fixed a b c else .other a
+def decZdt : List Int → Option ZonedDateTime
+  | [o, y, m, d, n, s, k, a, b, c] => some ⟨⟨LocalDate.ofFields o y m d, OffsetTime.ofFields n s⟩, decZone k a b c⟩
+  | _ => none
+def decIv : List Int → Option Interval
+  | [hs, sd, sn, he, ed, en] => some ⟨optInstant false hs sd sn, optInstant true he ed en⟩ | _ => none
+def decDiv : List Int → Option DateInterval
+  | [o, y, m, d, y2, m2, d2] => some ⟨LocalDate.ofFields o y m d, LocalDate.ofFields o y2 m2 d2⟩ | _ => none
+def decPer : List Int → Option Period
+  | [a, b, c, d, e, f, g, h, i, j] => some ⟨a, b, c, d, e, f, g, h, i, j⟩ | _ => none
+def decZi : List Int → Option ZoneInterval
+  | [nm, hs, sd, sn, he, ed, en, w, s] => some ⟨nm, optInstant false hs sd sn, optInstant true he ed en, ⟨w⟩, ⟨s⟩⟩
+  | _ => none
+def decFz : List Int → Option FixedZone | [o, i, n] => some ⟨⟨o⟩, i, n⟩ | _ => none
+
+def tri {α} (ops : TyOps α) (dec : List Int → Option α) (n : Nat) (l : List Int) : Option String :=
+  if l.length = 3 * n then do
+    let a ← dec (l.take n)
+    let b ← dec ((l.drop n).take n)
+    let c ← dec (l.drop (2 * n))
+    some (triReply ops a b c)
+  else none
+
+def handle (toks : List String) : Option String :=
+  match toks with
+  | op :: rest =>
+    if op.startsWith "tri." then do
+      let l ← parseInts? rest
+      match (op.drop 4).toString with
+      | "dur" => tri durOps decDur 2 l
+      | "inst" => tri instOps decInst 2 l
+      | "off" => tri offOps decOff 1 l
+      | "lt" => tri ltOps decLt 1 l
+      | "ld" => tri ldOps decLd 4 l
+      | "ldt" => tri ldtOps decLdt 5 l
+      | "ym" => tri ymOps decYm 3 l
+      | "ad" => tri adOps decAd 2 l
+      | "od" => tri odOps decOd 5 l
+      | "ot" => tri otOps decOt 2 l
+      | "odt" => tri odtOps decOdt 6 l
+      | "zdt" => tri zdtOps decZdt 10 l
+      | "iv" => tri ivOps decIv 6 l
+      | "div" => tri divOps decDiv 7 l
+      | "per" => tri perOps decPer 10 l
+      | "zi" => tri ziOps decZi 9 l
+      | "fz" => tri fzOps decFz 3 l
+      | _ => none
+    else none
+  | _ => none
 
 end Pyoda.Compare
